@@ -114,10 +114,11 @@ func (self ValueString) Fields() (map[string]*Value, *Interrupt) {
 			decoder := json.NewDecoder(strings.NewReader(self.Inner))
 			decoder.UseNumber()
 			if err := decoder.Decode(&raw); err != nil {
-				return nil, NewRuntimeErr(fmt.Sprintf("JSON parse error: %s", err.Error()), JsonErrorKind, span)
+				// an exception the program can catch, like on the VM (and like the other parse_* members)
+				return nil, NewThrowInterrupt(span, fmt.Sprintf("JSON parse error: %s", err.Error()))
 			}
 			if decoder.More() {
-				return nil, NewRuntimeErr("JSON parse error: unexpected data after top-level value", JsonErrorKind, span)
+				return nil, NewThrowInterrupt(span, "JSON parse error: unexpected data after top-level value")
 			}
 			value, i := unmarshalValue(span, raw)
 			if i != nil {
